@@ -412,9 +412,16 @@ class Evaluator:
       op, a, b = l[1], l[2], l[3]
       ea, eb = self.evaluable(a, env, scope), self.evaluable(b, env, scope)
       if ea and eb:
+        if op == '==' and a[0] == 'var' and a == b:
+          # unification of a variable with itself constrains nothing (also when its value is null): DESIGN 4.21 rule 13
+          yield env, 1
+          return
         va, vb = canon(self.eval(a, env, scope)), canon(self.eval(b, env, scope))
         if truthy(compare(op, va, vb)):
           yield env, 1
+        elif (op == '==' and va is None and vb is None and a[0] == 'var' and b[0] == 'var'
+              and self.switches.get('null_unifies_with_null')):
+          yield env, 1      # recorded deviation (see step_call)
       elif op == '==':
         if ea:
           a, b = b, a
@@ -498,6 +505,8 @@ class Evaluator:
         else:
           w = canon(self.eval(e, env2, scope))
           if not truthy(compare('==', v, w)):
+            if self.switches.get('null_unifies_with_null') and v is None and w is None and e[0] == 'var':
+              continue      # recorded deviation: a repeated variable holding null passes once the callee is inlined
             ok = False
             break
       if ok:
@@ -558,6 +567,13 @@ class Evaluator:
     if k == 'not_e':
       a = canon(self.eval(e[1], env, scope))
       return None if a is None else (0 if truthy(a) else 1)
+    if k == 'neg':
+      a = canon(self.eval(e[1], env, scope))
+      if a is None:
+        return None
+      if isinstance(a, (str, tuple)):
+        raise Unsupported('unary minus on a non-number')
+      return -a
     if k == 'field':
       r = canon(self.eval(e[1], env, scope))
       if r is None:
@@ -743,7 +759,7 @@ def hoist_rule(rule, ev):
       return ('rec', tuple((f, h_expr(x, acc)) for f, x in e[1]))
     if k in ('bin', 'cmpe'):
       return (k, e[1], h_expr(e[2], acc), h_expr(e[3], acc))
-    if k == 'not_e':
+    if k in ('not_e', 'neg'):
       return (k, h_expr(e[1], acc))
     if k == 'field':
       return (k, h_expr(e[1], acc), e[2])
